@@ -5,7 +5,7 @@ the independent Python oracle."""
 import lib, exact_common
 
 PID = "C01"
-THEOREMS = ["Properties_C01.v", "Properties_C01_trees.v", "Properties_Ref.v", "Properties_Ref2.v"]
+THEOREMS = ["Properties_C01.v", "Properties_C01_trees.v", "Properties_C01_trees_exact.v", "Properties_Ref.v", "Properties_Ref2.v"]
 
 
 def check(tier, seed):
